@@ -144,9 +144,13 @@ func (w *World) checkRootHandling(P string, f *Facts, r *Roles, ef *ExecFacts) {
 				if recv, ok := isMethodCall(call, "Parent"); ok && call.Call.IsInvoke() {
 					for _, s := range resultSinks(call) {
 						guarded := false
-						for _, pt := range posTests(s.In.Block()) {
-							if pt.Recv == recv && pt.NonZero {
-								guarded = true
+						// the test may guard the use or the Parent() call itself (a value computed only for a
+						// non-root cursor is a genuine parent wherever it flows, e.g. round a climbing loop)
+						for _, blk := range []*ssa.BasicBlock{s.In.Block(), call.Block()} {
+							for _, pt := range posTests(blk) {
+								if pt.Recv == recv && pt.NonZero {
+									guarded = true
+								}
 							}
 						}
 						n5a++
